@@ -346,6 +346,10 @@ fn make(tier: &str, seed: u64) -> Vec<Box<dyn Harness>> {
     topos.extend(u4_parallel(seed, if thorough { 80 } else { 10 }));
     let u5 = u5c();
     topos.extend(if thorough { u5 } else { rotate_subset(u5, seed, 5) });
+    // degenerate members, always present: no edge at all, only self-loops, one edge, a single node
+    for (id, n, edges) in [("empty4", 4usize, vec![]), ("loops_only", 4, vec![(1usize, 1usize), (3, 3)]), ("one_loop", 3, vec![(0, 0)]), ("one_edge", 4, vec![(1, 2)]), ("single_node", 1, vec![]), ("loop_and_edge", 3, vec![(0, 0), (0, 2)])] {
+        topos.push(Topo { fam: "Udeg".into(), id: id.into(), n, directed: false, edges });
+    }
     let mut rng = Rng::new(seed ^ 0x1212);
     let hosts = [Host::GraphUn, Host::GraphDi, Host::StableUn, Host::StableDi];
     for t in &topos {
